@@ -1,6 +1,13 @@
-(** C02: every interleaving of Mlk refines the atomic counting-lock specification (work package lklin). *)
+(** C02: every interleaving of Mlk refines the atomic counting-lock specification (work package lklin).
+
+    Forward simulation with fixed linearisation points: the ghost actions [EvLin] of the trace, in order, are a run of
+    [spec_step false]; the abstraction of the concrete state is [spec_rel]. Main results (all relative to the invariant
+    [T_linv_reach] that Proofs/LkInv.v proves):
+      [refines_step], [C02_refines_from_inv], [C02_strict_from_inv], [C03_fifo_spec], and (from LkLinResp.v)
+      [C02_responses]. Helper files: LkLinBase.v (traces, permutations, key bookkeeping, notify, frame lemmas),
+      LkLinResp.v (responses). *)
 From Coq Require Import Lia ZifyBool ZifyNat.
-From Ldlm Require Import Model.Base Model.Err Model.Lk Proofs.LkDefs Proofs.LkLinBase.
+From Ldlm Require Import Model.Base Model.Err Model.Lk Proofs.LkDefs Proofs.LkLinBase Proofs.LkLinResp.
 From RecordUpdate Require Import RecordSet.
 Import RecordSetNotations.
 Local Open Scope Z_scope.
@@ -338,13 +345,13 @@ Qed.
 
 Lemma gc_fold_refines l : ∀ s sp, map_ok s → quiet s →
   spec_run false ∅ (lin_of (l_trace s)) = Some sp → spec_rel sp s →
-  ∃ sp', spec_run false ∅ (lin_of (l_trace (fold_left (λ s '(name, _), gc_one (-1) name s) l s))) = Some sp' ∧
-         spec_rel sp' (fold_left (λ (s : lstate) '((name, _) : str * nat), gc_one (-1) name s) l s).
+  ∃ sp', spec_run false ∅ (lin_of (l_trace (fold_left (λ s '(name, _), gc_one 0 name s) l s))) = Some sp' ∧
+         spec_rel sp' (fold_left (λ (s : lstate) '((name, _) : str * nat), gc_one 0 name s) l s).
 Proof.
   induction l as [|[name x] l IH]; intros s sp Hmok Hq Hrun Hrel; simpl; [by exists sp|].
-  destruct (gc_one_refines (-1) name s sp Hmok) as (sp1 & Hrun1 & Hrel1); [|done|done|].
+  destruct (gc_one_refines 0 name s sp Hmok) as (sp1 & Hrun1 & Hrel1); [|done|done|].
   { intros oid o _ Ho _. destruct Hq as [Hq1 Hq2]. destruct (Hq1 _ _ Ho). auto. }
-  destruct (gc_one_quiet (-1) name s Hmok Hq) as [Hmok1 Hq1]. by apply (IH _ sp1).
+  destruct (gc_one_quiet 0 name s Hmok Hq) as [Hmok1 Hq1]. by apply (IH _ sp1).
 Qed.
 
 Lemma ncf_thr s tid t : no_call_in_flight s = true → l_thr s !! tid = Some t → in_flight (t_pc t) = false.
@@ -427,3 +434,8 @@ Proof.
   destruct (sp !! n) as [o|] eqn:Ho; [|done]. destruct (so_q o) as [|t' q] eqn:Hq; [done|].
   case_bool_decide; [|done]. subst. eauto 6.
 Qed.
+
+(** responses agree with the linearisation (proved in LkLinResp.v; the proof uses the fields [li_queue] and
+    [li_queue_nodup] of the invariant — a woken thread is a live waiter other than the releaser — hence the premise) *)
+Theorem C02_responses : T_linv_reach → T_C02_responses.
+Proof. exact C02_responses_from_inv. Qed.
